@@ -649,6 +649,40 @@ def errno_of_message(msg):
     return errno_messages()[msg]
 
 
+INSERT_KINDS = ('set', 'multiset', 'map', 'multimap', 'unordered_set', 'unordered_multiset', 'unordered_map', 'unordered_multimap')
+
+
+def overwrites(rt):
+    """does deserializing into a USED object of this type leave exactly the new value?  Insert-category containers only add
+    (by design), everything else is assigned, resized or re-created; an optional / smart pointer gets a fresh object, so
+    whatever is below it starts empty"""
+    k = rt['kind']
+    if k == 'seq':
+        return rt['seqkind'] not in INSERT_KINDS and overwrites(rt['elem'])
+    if k == 'tup':
+        return all(overwrites(e) for e in rt['elems'])
+    if k == 'struct':
+        return all(overwrites(f) for _, f in rt['fields'])
+    if k == 'opt':
+        return True
+    return k in ('arith', 'enum', 'adapter')
+
+
+def has_node(rt, kinds):
+    k = rt['kind']
+    if k in kinds:
+        return True
+    if k == 'seq':
+        return has_node(rt['elem'], kinds)
+    if k == 'tup':
+        return any(has_node(e, kinds) for e in rt['elems'])
+    if k == 'struct':
+        return any(has_node(f, kinds) for _, f in rt['fields'])
+    if k == 'opt':
+        return has_node(rt['inner'], kinds)
+    return False
+
+
 def moveonly(rt):
     k = rt['kind']
     if k in ('arith', 'enum', 'adapter'):
@@ -921,9 +955,16 @@ def make_program(rng, prefix, ncases):
         X = xrt['cxx'] if xrt else 'void'
         fx = g.realise_fixed(ty, [val]) if has_seq(ty) else None
         F = fx[0]['cxx'] if fx else 'void'
-        body.append('static void case_%d() {\n  %s\n  using VT = %s;\n  const VT v = %s;\n  vr::report<VT, %s, %s, %s>(%d, v);\n}' % (
-            i, '\n  '.join(statics), rt['cxx'], expr, RT, X, F, i))
-        cases.append({'ty': ty, 'val': val, 'cxx': rt['cxx'], 'rt': drt, 'xt': xrt,
+        # a second value of the same type, deserialized into the destination that already holds the first one
+        # (bit 0: the destination type overwrites, see `overwrites`; bit 1: it can be copied)
+        ag, val2, second = 0, None, ''
+        if drt and overwrites(drt) and (has_node(drt, ('opt',)) or (has_node(drt, ('seq',)) and rng.random() < 0.3)):
+            ag = 1 | (0 if moveonly(drt) else 2)
+            val2 = canon_value_for(rt, g.rand_val(ty))
+            second = '\n  const VT w = %s;' % g.cxx_value(rt, val2, statics)
+        body.append('static void case_%d() {\n  %s\n  using VT = %s;\n  const VT v = %s;%s\n  vr::report<VT, %s, %s, %s, %d>(%d, v%s);\n}' % (
+            i, '\n  '.join(statics), rt['cxx'], expr, second, RT, X, F, ag, i, ', &w' if ag else ''))
+        cases.append({'ty': ty, 'val': val, 'cxx': rt['cxx'], 'rt': drt, 'xt': xrt, 'val2': val2, 'ag': ag,
                       'fx': None if fx is None else {'cxx': F, 'dst': fx[1], 'fits': py_fits(fx[1], val)}})
     src = PROLOGUE + '\n'.join(g.decls) + '\n\n' + '\n'.join(body) + '\n\nint main() {\n' + \
         ''.join('  case_%d();\n' % i for i in range(ncases)) + '  return 0;\n}\n'
